@@ -20,7 +20,7 @@ def classify(events, i, why, case=None):
     cls = why.get("cls")
     src = beg.get("src", "?")
     # root-cause feature: a hash type carrying the FORKID bit while the FORKID flag is off
-    if case is not None and not beg["flags"] & FL["SIGHASH_FORKID"] and cls in ("stack", "verdict"):
+    if case is not None and not beg["flags"] & FL["SIGHASH_FORKID"] and cls in ("stack", "verdict", "sig-error"):
         if any(n["bytes"] and n["bytes"][-1] & 0x40 for n in (case["sx"].get("sigs") or [])):
             op = "CHECKMULTISIG" if src == "multisig" else "CHECKSIG"
             return "forkid-bit-without-forkid-flag:%s" % op, \
@@ -33,6 +33,9 @@ def classify(events, i, why, case=None):
             "verdict %s where the rules give %s (%s, flags %s)" % (why["impl"], why["spec"], src, flagtag(beg["flags"]))
     if cls == "total":
         return "no-verdict:%s:%s" % (why["outcome"], src), "execution ends with %s (%s)" % (why["outcome"], src)
+    if cls == "sig-error":
+        return "error-instead-of-result:%s:%s:%s" % (c05.opname(why["op"]), src, flagtag(beg["flags"])), \
+            "%s ends the script with an error (%s) where the rules give a result (%s, flags %s)" % (c05.opname(why["op"]), end.get("err", "")[:60], src, flagtag(beg["flags"]))
     return None, None
 
 
